@@ -357,7 +357,7 @@ func runHarness(prog *ssa.Program, def harnessDef, tier int) (res *HarnessResult
 	if p := def.directives["property"]; len(p) > 0 {
 		res.Property = p[0]
 	}
-	for _, s := range def.directives["stub"] {
+	for _, s := range append(append([]string(nil), def.directives["stub"]...), def.directives["stub-symbolic"]...) {
 		f := strings.Fields(s)
 		if len(f) != 2 {
 			res.Status, res.Error = "error", "bad stub directive: "+s
